@@ -417,3 +417,88 @@ fn drd_marker_vol() {
     assert!(c.pos == 36 + 52);
     core::mem::forget(m);
 }
+
+// ---- quick C04 checks on the type-31 decoder: concrete structure, a handful of symbolic bytes -----------------
+
+/// unknown block name: one name byte symbolic (any 7-bit value) at each of the three positions over the concrete
+/// prefix "REF" (so every single-byte deviation from a known name is covered), 1 gate: value or error, never a panic
+fn unknown_name(pos: usize) {
+    let mut bytes = [0u8; 36 + 28 + 1];
+    one_block(&mut bytes, b"REF");
+    bytes[36 + 9] = 1;
+    bytes[36 + 19] = 8;
+    let x: u8 = kani::any();
+    kani::assume(x < 128);
+    bytes[37 + pos] = x;
+    let mut c = SliceReader { buf: &bytes[..], pos: 0 };
+    let r = decode_digital_radar_data(&mut c);
+    if let Ok(m) = &r {
+        // radial conversion of whatever decoded successfully is total too
+        let a = m.radial();
+        core::mem::forget(a);
+    }
+    core::mem::forget(r);
+}
+#[kani::proof]
+#[kani::unwind(8)]
+#[kani::stub(alloc::fmt::format, format_stub)]
+fn drd_q_unknown_name_0() { unknown_name(0); }
+#[kani::proof]
+#[kani::unwind(8)]
+#[kani::stub(alloc::fmt::format, format_stub)]
+fn drd_q_unknown_name_1() { unknown_name(1); }
+#[kani::proof]
+#[kani::unwind(8)]
+#[kani::stub(alloc::fmt::format, format_stub)]
+fn drd_q_unknown_name_2() { unknown_name(2); }
+
+/// symbolic pointer (any u32: backwards into the header, overlapping, far out of range) to a block in a concrete
+/// 80-byte message: value or error, never a panic
+#[kani::proof]
+#[kani::unwind(8)]
+#[kani::stub(alloc::fmt::format, format_stub)]
+fn drd_q_pointer_any() {
+    let mut bytes = [0u8; 80];
+    one_block(&mut bytes, b"ELV");
+    let p: u32 = kani::any();
+    bytes[32..36].copy_from_slice(&p.to_be_bytes());
+    let mut c = SliceReader { buf: &bytes[..], pos: 0 };
+    let r = decode_digital_radar_data(&mut c);
+    core::mem::forget(r);
+}
+
+/// truncation at the structural boundaries of a one-block (ELV) message: every cut is an error and decoding ends
+#[kani::proof]
+#[kani::unwind(10)]
+fn drd_q_truncated_boundaries() {
+    let mut bytes = [0u8; 48];
+    one_block(&mut bytes, b"ELV");
+    let cuts = [0usize, 1, 31, 32, 35, 36, 39, 40, 47];
+    let mut i = 0;
+    while i < 9 {
+        let mut c = SliceReader { buf: &bytes[..cuts[i]], pos: 0 };
+        let r = decode_digital_radar_data(&mut c);
+        assert!(r.is_err());
+        core::mem::forget(r);
+        i += 1;
+    }
+}
+
+/// a moment block declaring far more gate bytes than remain (5, 1840 and 65535 gates, 8- and 16-bit words, 4 data bytes
+/// present): an error — never a hang or a panic
+#[kani::proof]
+#[kani::unwind(8)]
+fn drd_q_gates_short() {
+    let gates_set = [5u16, 1840, 65535];
+    let k: usize = kani::any();
+    kani::assume(k < 3);
+    let wide: bool = kani::any();
+    let mut bytes = [0u8; 36 + 28 + 4];
+    one_block(&mut bytes, b"REF");
+    bytes[36 + 8..36 + 10].copy_from_slice(&gates_set[k].to_be_bytes());
+    bytes[36 + 19] = if wide { 16 } else { 8 };
+    let mut c = SliceReader { buf: &bytes[..], pos: 0 };
+    let r = decode_digital_radar_data(&mut c);
+    assert!(r.is_err());
+    core::mem::forget(r);
+}
